@@ -85,7 +85,8 @@ Fixpoint chunk_indep (prev : option (Z * list Z * list Z)) (ops : list zop) (obs
                   end in
         ok && chunk_indep (Some (code, a, ob)) r obr
       else chunk_indep None r obr)
-  | _, _ => true
+  | [], [] => true
+  | _, _ => false       (* an operation without an observation (or vice versa) is never fine *)
   end.
 
 Definition prop_ok (c : case) : bool := chunk_indep None (c_ops c) (c_obs c).
